@@ -216,6 +216,7 @@ type session struct {
 	kq     int
 	pr     int  // read end of the close pipe
 	closed bool // reader has exited (Events closed)
+	stuck  bool // the reader neither went idle nor exited within the watchdog time (e.g. blocked in open(2) of a FIFO)
 	evs    []string
 	errs   []string
 }
@@ -245,7 +246,7 @@ func newSession() (*session, error) {
 }
 
 func (s *session) end() []simunix.Desc {
-	if !s.closed {
+	if !s.closed && !s.stuck {
 		simunix.Release()
 		s.w.Close()
 		s.drainClosed()
@@ -314,6 +315,7 @@ func (s *session) sync() {
 	stop := make(chan struct{})
 	go func() { idle <- simunix.WaitIdle(s.kq, stop) }()
 	evc, erc := s.w.Events, s.w.Errors
+	wd := time.After(3 * time.Second)
 	for {
 		select {
 		case e, ok := <-evc:
@@ -331,6 +333,12 @@ func (s *session) sync() {
 			}
 			s.errs = append(s.errs, errClass(err))
 		case <-idle:
+			return
+		case <-wd:
+			// the reader is neither idle nor gone: it is blocked outside kevent (observed: os.ReadDir of a path that
+			// became a FIFO). The history is abandoned; the blocked goroutine is left behind.
+			s.stuck, s.closed = true, true
+			close(stop)
 			return
 		}
 	}
@@ -468,6 +476,17 @@ func (s *session) observe(res string, withTree bool) string {
 
 // step executes one history step and returns the observation text.
 func (s *session) step(f []string) string {
+	if s.stuck {
+		return "res=skipped"
+	}
+	out := s.step1(f)
+	if s.stuck {
+		return "res=reader-stuck"
+	}
+	return out
+}
+
+func (s *session) step1(f []string) string {
 	switch f[0] {
 	case "fs":
 		if len(f) < 2 {
